@@ -15,6 +15,7 @@ import (
 
 	"verif/harness/internal/attrquery"
 	"verif/harness/internal/c10"
+	"verif/harness/internal/c14"
 	"verif/harness/internal/c16"
 	"verif/harness/internal/c17"
 	"verif/harness/internal/c19"
@@ -53,6 +54,8 @@ func main() {
 		err = logout.Run(prop, *out, *tier, *seed)
 	case "C02", "C05", "C06", "C08":
 		err = sso.Run(prop, *out, *tier, *seed)
+	case "C14":
+		err = c14.Run(*out, *tier, *seed)
 	case "C16":
 		err = c16.Run(*out, *tier, *seed)
 	case "C17":
